@@ -4,7 +4,7 @@
   ->  TLC validates every trace against specs/solver/Trace_Lifecycle.tla (all invariants in every state)
   ->  rejected traces are re-validated one by one to find the first unexplainable event.
 """
-import json, os, random, shutil, io, contextlib
+import json, os, random, shutil, io, contextlib, math
 from harness.tlc import run_tlc, scratch_dir, TLCError
 from harness.record import Recorder, NONE
 
@@ -94,8 +94,26 @@ def kwify(script, phase=0):
     return out if changed else None
 
 
+def _rounded(x):        # plateaus; exactly 0.0 on the unit cell around the origin
+    return float(sum(round(float(xi)) ** 2 for xi in x))
+
+
+def _shifted(x):        # negative energies: the minimum is -5.0
+    return float(sum((float(xi) - 0.25) ** 2 for xi in x)) - 5.0
+
+
+def _steps(x):          # integer-valued, zero on a half-space
+    return float(sum(max(0, math.floor(float(xi))) for xi in x))
+
+
+COSTS = {"sphere": None, "rounded": _rounded, "shifted": _shifted, "steps": _steps}
+
+
 def run_script(kind, script, seed=0, dim=2, npop=4, cost=None, scripted_term=False):
-    """execute a script on a real solver; returns the recorded event list (never raises for mystic errors)"""
+    """execute a script on a real solver; returns the recorded event list (never raises for mystic errors);
+    `cost` may name a member of COSTS (energies that are exactly zero, negative, integer-valued)"""
+    if isinstance(cost, str):
+        cost = COSTS[cost]
     rec = Recorder(kind, dim=dim, npop=npop, seed=seed, cost=cost, scripted_term=scripted_term)
     buf = io.StringIO()
     with contextlib.redirect_stdout(buf):
